@@ -153,10 +153,27 @@ func TestC20E2E(t *testing.T) {
 			chain.SetPointers(tip, tip, cand.block-1)
 		}
 		reexecuted, reexecFired := false, false
+		// one of the node's trace requests may fail transiently (the claim handler makes one RPC per claim log)
+		traceFaultAt, traceCalls := ch.Int(0, 8, "transientTraceFailureAtCall"), 0
+		if reexec == nil && traceFaultAt > 0 {
+			chain.Hook = func(c *fakechain.Chain, call fakechain.Call) error {
+				if call.Method == "debug_traceTransaction" {
+					if traceCalls++; traceCalls == traceFaultAt {
+						return fmt.Errorf("injected transient failure of debug_traceTransaction")
+					}
+				}
+				return nil
+			}
+		}
 		if reexec != nil {
 			var curFrom, curTo uint64
 			traced := false
 			chain.Hook = func(c *fakechain.Chain, call fakechain.Call) error {
+				if call.Method == "debug_traceTransaction" {
+					if traceCalls++; traceCalls == traceFaultAt {
+						return fmt.Errorf("injected transient failure of debug_traceTransaction")
+					}
+				}
 				switch {
 				case reexecuted:
 				case call.Method == "FilterLogs":
@@ -202,10 +219,17 @@ func TestC20E2E(t *testing.T) {
 		// the same traces without getting anywhere is refusing an event whose transaction has a live matching call
 		dl := time.Now().Add(180 * time.Second)
 		planOpen := reexec != nil
+		lastSeen, lastMove := uint64(0), time.Now()
 		for {
 			n, err := s.GetLastProcessedBlock(bg)
 			if err == nil && n >= chain.Tip() {
 				break
+			}
+			if (err == nil && n != lastSeen) || planOpen {
+				lastSeen, lastMove = n, time.Now()
+			}
+			if time.Since(lastMove) > 10*time.Second {
+				rt.Fatalf("[end to end] the syncer stopped advancing at block %d of %d for 10 s although every claim transaction of the (final) chain has a live matching call (%d trace requests for %d claim transactions)", lastSeen, chain.Tip(), chain.Count("debug_traceTransaction"), len(txs))
 			}
 			if planOpen && ((err == nil && n >= reexec.block) || chain.Count("FilterLogs") > 40) {
 				// the moment for the re-execution has passed (or never came): finality catches up, the plan expires
